@@ -238,6 +238,16 @@ C16 = [
      "        if True:\n            with open(log_path, 'a') as fh:", None),
 ]
 
+CALL = 'pharmpy/workflows/dispatchers/local_dask/call.py'
+C17 += [
+    ('call-workflow-without-context', CALL,
+     "    wb = WorkflowBuilder(wf)\n    insert_context(wb, ctx)\n    wf = Workflow(wb)",
+     "    wb = WorkflowBuilder(wf)\n    wf = Workflow(wb)", None),
+    ('call-workflow-keeps-results-key', CALL,
+     "    dsk[unique_name] = dsk.pop('results')\n    dsk_optimized = optimize_task_graph_for_dask_distributed(client, dsk)\n    futures = client.get(dsk_optimized, unique_name, sync=False)",
+     "    dsk_optimized = optimize_task_graph_for_dask_distributed(client, dsk)\n    futures = client.get(dsk_optimized, 'results', sync=False)", None),
+]
+
 ALL = {'C15': [_norm(m) for m in C15 if m[0] not in EQUIVALENT],
        'C16': [_norm(m) for m in C16 if m[0] not in EQUIVALENT],
        'C17': [_norm(m) for m in C17]}
